@@ -682,7 +682,7 @@ func VerifC15RuntimeNil() {
 	ctx := context.Background()
 	vcfg("fifo", 1)
 	vcfg("selectfirst", 1)
-	kind := vchoose("kind", 4)
+	kind := vchoose("kind", 8)
 	var run func(stream bool) error
 	switch kind {
 	case 0: // a nil value of an any-typed source field mapped to the whole (any-typed) input of END
@@ -729,15 +729,50 @@ func VerifC15RuntimeNil() {
 			_, e := r.Invoke(ctx, c15AnySrc{})
 			return e
 		}
-	case 2, 3: // a path below an any-typed value that holds a pointer to a non-struct / a non-struct
+	case 7: // a nil at the end of a path below an any-typed value, mapped to a pointer-typed input: fits, or an ordinary error
+		wf := NewWorkflow[map[string]any, string]()
+		wf.AddLambdaNode("c", InvokableLambda(func(ctx context.Context, in *string) (string, error) {
+			if in == nil {
+				return "nil", nil
+			}
+			return *in, nil
+		})).AddInput(START, FromFieldPath(FieldPath{"F1", "k", "j"}))
+		wf.End().AddInput("c")
+		r, err := wf.Compile(ctx)
+		vassert(err == nil, "compiles (the type below the any value is only known at run time)")
+		in := map[string]any{"F1": map[string]any{"k": map[string]any{"j": nil}}}
+		run = func(stream bool) error {
+			if stream {
+				sr, e := r.Stream(ctx, in)
+				if e != nil {
+					return e
+				}
+				defer sr.Close()
+				_, e = sr.Recv()
+				if e == io.EOF {
+					return nil
+				}
+				return e
+			}
+			_, e := r.Invoke(ctx, in)
+			return e
+		}
+	case 2, 3, 4, 5, 6: // a path below an any-typed value that holds something without that field
 		wf := NewWorkflow[map[string]any, map[string]any]()
 		wf.End().AddInput(START, MapFieldPaths(FieldPath{"F1", "x"}, FieldPath{"out"}))
 		r, err := wf.Compile(ctx)
 		vassert(err == nil, "compiles (the type below the any value is only known at run time)")
 		n := 5
-		var v any = &n
-		if kind == 3 {
-			v = 5
+		var v any = &n // a pointer to a non-struct
+		switch kind {
+		case 3:
+			v = 5 // a non-struct
+		case 4:
+			v = map[int]string{1: "x"} // a map whose keys are not strings
+		case 5:
+			v = struct{ Y int }{1} // a struct without the field
+		case 6:
+			v = struct{ x int }{1} // a struct whose field of that name is not exported
 		}
 		run = func(stream bool) error {
 			if stream {
@@ -757,8 +792,8 @@ func VerifC15RuntimeNil() {
 		}
 	}
 	rerr := run(vchoose("stream", 2) == 1)
-	if kind >= 2 {
-		vassert(rerr != nil, "a path below a value that has no fields is a run-time error")
+	if kind >= 2 && kind <= 6 {
+		vassert(rerr != nil, "a path below a value that has no such field is a run-time error")
 	}
 	if rerr != nil {
 		vassert(!strings.Contains(rerr.Error(), "panic"), "reported as an ordinary error, not a recovered panic")
